@@ -97,8 +97,8 @@ TEXT = {
         "note": "Uniformity for large n is argued from the pointwise RandIntn characterisation (result = word mod n, only words <= 2^32 mod n rejected) plus the exhaustive small cases, not measured statistically. Duplicate fingerprints are not generated. Found and repaired: all-paths-failed round returned offset 0 without error (3b20f61).",
     },
     "C08": {
-        "technique": "structure-aware fuzzing with rapid generators against the real listeners and clients running in child processes: hostile datagram / byte-stream scripts (raw, mutated valid NTP/NTS/SCION/SCMP/CSPTP/NTS-KE inputs incl. authenticated odd-shaped NTS requests and correctly sealed hostile NTS replies), liveness oracle = child alive + sentinel request on the same socket pair answered (CSPTP: processed), with a reproduction protocol for hangs; every crash is shrunk by restarting the child",
+        "technique": "structure-aware fuzzing with rapid generators against the real listeners and clients running in child processes: hostile datagram / byte-stream scripts (raw, mutated valid NTP/NTS/SCION/SCMP/CSPTP/NTS-KE inputs incl. authenticated odd-shaped NTS requests and correctly sealed hostile NTS replies), stream peers that close at once or hold the connection open; liveness oracle = child alive + sentinel request on the same socket pair answered (CSPTP: processed), with a reproduction protocol for hangs; every crash is shrunk by restarting the child",
         "level": "Generated search: ~1500 listener scripts and ~700 client calls quick; tens of thousands thorough. Exploration: absence of a crashing input among those generated, not proof of robustness.",
-        "note": "'Never hangs' is checked as a bounded wait (a lost sentinel must reproduce twice on fresh children). QUIC/SCION key exchange and TLS handshake internals are not attacked. Native go-fuzz targets are not used (the structure-aware rapid generators reach the layer handling directly and shrink). Found and repaired: P9 (c410d10, 254e9a4, 0ef00ad, ebb9a99), P10 (34e00ca), NTS encode-buffer overflow (b35eaa0), CSPTP short datagram (4996ea0).",
+        "note": "'Never hangs' is checked as a bounded wait (a lost sentinel must reproduce twice on fresh children). QUIC/SCION key exchange and TLS handshake internals are not attacked. Native go-fuzz targets are not used (the structure-aware rapid generators reach the layer handling directly and shrink). Found and repaired: P9 (c410d10, 254e9a4, 0ef00ad, ebb9a99), P10 (34e00ca), NTS encode-buffer overflow (b35eaa0), CSPTP short datagram (4996ea0), unbounded wait on a stalled key-exchange stream (4e4a5e8). Client calls are given 3 s (12 s when the key-exchange server holds its connection open: dial and exchange are bounded by 5 s each) before a hang is reported.",
     },
 }
